@@ -2,10 +2,11 @@
     [decode_string] / [decode_bytes] are what the visitor makes of a STRING / BYTES token
     (parse.rs unquote_string / unquote_bytes); [render] spells a string in a one-quote style with
     a free choice, per character, between the verbatim character and every applicable escape
-    form.  The triple-quoted forms are covered by the correspondence run (and by the lexer
-    model); their round trip is not yet a theorem, hence the property is claimed as partial.
-    Known finding K01 (raw triple-quoted literals containing U+0000 or U+10FFFF are rejected by
-    the ANTLR runtime) lies in that unproved part. *)
+    form; the triple-quoted forms take the same bodies (and, raw, any characters at all).
+    Partial in this: the theorems are about decoding a token; that the lexer takes the spelling
+    as one STRING / BYTES token is the correspondence run (and the lexer model).  Known finding
+    K01 (raw triple-quoted literals containing U+0000 or U+10FFFF are rejected by the ANTLR
+    runtime's lexer) lies in that part. *)
 From Coq Require Import String Ascii.
 From Cel.Model Require Import Literals.
 From Cel.Proofs Require Import LiteralProofs.
@@ -69,9 +70,31 @@ Example C12_ex_render :
   render 34 [104; 10; 233] [CVerb; CSimple; CU4] = Some ($"h\n\u00e9").
 Proof. reflexivity. Qed.
 
+(** The triple-quoted forms: the same spellings between three-quote delimiters (34 or 39, thrice). *)
+Theorem C12_string_roundtrip_triple : forall q s ks body,
+  (q = 34 \/ q = 39) -> forallb is_scalar s = true -> render q s ks = Some body ->
+  decode_string (q :: q :: q :: body ++ [q; q; q]) = Some s.
+Proof. exact string_roundtrip_long. Qed.
+
+Theorem C12_bytes_roundtrip_triple : forall p q s ks body,
+  (p = ch "b" \/ p = ch "B") -> (q = 34 \/ q = 39) -> forallb is_scalar s = true ->
+  render q s ks = Some body ->
+  exists us, decode_bytes (p :: q :: q :: q :: body ++ [q; q; q]) = Some (flat_map unit_bytes us) /\ map unit_cp us = s.
+Proof. exact bytes_decode_long. Qed.
+
+(** Raw triple-quoted literals are verbatim for EVERY body - quotes, backslashes and newlines
+    included. *)
+Theorem C12_raw_verbatim_triple : forall p q s,
+  (p = ch "r" \/ p = ch "R") -> (q = 34 \/ q = 39) ->
+  decode_string (p :: q :: q :: q :: s ++ [q; q; q]) = Some s.
+Proof. exact raw_verbatim_long. Qed.
+
 Print Assumptions C12_string_roundtrip.
 Print Assumptions C12_bytes_roundtrip.
 Print Assumptions C12_raw_verbatim.
 Print Assumptions C12_escape_table.
 Print Assumptions C12_numeric_escapes.
 Print Assumptions C12_invalid_escape_rejected.
+Print Assumptions C12_string_roundtrip_triple.
+Print Assumptions C12_bytes_roundtrip_triple.
+Print Assumptions C12_raw_verbatim_triple.
